@@ -722,18 +722,24 @@ def copy_(a):
     return asarray(_items(a)) if not isinstance(a, Arr) else a.copy()
 
 
-def sort(a):
-    xs = _items(a)
-    if any(is_sym(x) for x in xs):
-        raise core.Unsupported("np.sort of symbolic values")
-    return asarray(sorted(xs))
+def _stable_order(xs):
+    """indices of xs in ascending order, stable; comparisons of symbolic values fork (one path per feasible order)"""
+    order = []
+    for k in range(len(xs)):
+        pos = len(order)
+        while pos > 0 and bool(xs[k] < xs[order[pos - 1]]):
+            pos -= 1
+        order.insert(pos, k)
+    return order
 
 
-def argsort(a):
+def sort(a, axis=-1, kind=None):
     xs = _items(a)
-    if any(is_sym(x) for x in xs):
-        raise core.Unsupported("np.argsort of symbolic values")
-    return Arr(sorted(range(len(xs)), key=lambda k: xs[k]), int)
+    return asarray([xs[k] for k in _stable_order(xs)])
+
+
+def argsort(a, axis=-1, kind=None):
+    return Arr(_stable_order(_items(a)), int)
 
 
 GLOBAL_RANDOM_HOOK = [None]  # harnesses install a SymRng here; its use means "the library drew from numpy's global state"
